@@ -74,6 +74,14 @@ func (a *C33Actor) PreStart(ctx *Context) error {
 
 func (a *C33Actor) Receive(*ReceiveContext) {}
 
+// C33Grain (registered on every node) only makes a peer's share span a second batch: actors and
+// grains always travel in separate RelocateBatch requests.
+type C33Grain struct{}
+
+func (*C33Grain) OnActivate(context.Context, *GrainProps) error   { return nil }
+func (*C33Grain) OnReceive(ctx *GrainContext)                      { ctx.Unhandled() }
+func (*C33Grain) OnDeactivate(context.Context, *GrainProps) error { return nil }
+
 func (a *C33Actor) PostStop(*Context) error {
 	if !a.counted {
 		return nil
@@ -136,7 +144,14 @@ type c33Live struct {
 	leader   int
 	departed int
 	gate     *c33Gate
-	faults []*c33Fault
+	faults   []*c33Fault
+
+	// holdNode >= 0: every registry operation of that node on one of the case's actor names blocks
+	// on holdAll until released (a target that stalls inside its first batch)
+	holdNode int
+	holdAll  *vfcGate
+	heldMu   sync.Mutex
+	heldKeys map[string]bool
 
 	relocateEntries atomic.Int64 // Peers issued from relocationWorker.relocate, any node
 	secondWhileHeld atomic.Int64 // ... while another worker of the same node is held by the harness
@@ -357,6 +372,12 @@ func (m *c33Mon) before(node int, op, key string) error {
 	if op == "ActorsByHost" {
 		cs.scansStarted.Add(1)
 	}
+	if cs.holdAll != nil && node == cs.holdNode && strings.HasPrefix(key, cs.prefix) {
+		cs.heldMu.Lock()
+		cs.heldKeys[key] = true
+		cs.heldMu.Unlock()
+		cs.holdAll.Hold(c33HoldWD)
+	}
 	if g := cs.gate; g != nil && node != cs.departed && (g.node < 0 || g.node == node) {
 		match := false
 		switch g.kind {
@@ -524,6 +545,7 @@ type c33Script struct {
 	LeaderChange string // "" | fresh | stale
 	Ghosts       bool   // kinds registered nowhere
 	Unplaceable  bool   // roles only the departed node advertises
+	MidShare     bool   // the departing node also hosts grains (a share = actor batch + grain batch); one target stalls inside its actor batch, dies, answers that batch with per-item failures and refuses the grain batch
 	Weight       int
 }
 
@@ -543,6 +565,7 @@ var c33Scripts = []c33Script{
 	{Name: "crash-depart+queued-dups", Crash: true, Queued: true, PreStartFail: true, Weight: 1},
 	{Name: "leader-change-fresh", Gate: "peers", LeaderChange: "fresh", Inflight: true, Ghosts: true, Weight: 2},
 	{Name: "leader-change-stale", Gate: "peers", LeaderChange: "stale", Inflight: true, Unplaceable: true, Weight: 1},
+	{Name: "target-dies-between-its-batches", MidShare: true, Ghosts: true, Weight: 3},
 	{Name: "survivor-down+prestart+ghosts", Gate: "loads", SurvivorDown: true, PreStartFail: true, Ghosts: true, Queued: true, Weight: 2},
 }
 
@@ -718,6 +741,17 @@ func c33RunCase(cl *vfcCluster, mon *c33Mon, sc c33Script, seed int64, prefix st
 			parents[s.Name] = pid
 		}
 	}
+	nGrains := 0
+	if sc.MidShare {
+		nGrains = 2*len(survivors) + rng.Intn(4)
+		for i := 0; i < nGrains; i++ {
+			if _, err := dsys.GrainIdentity(ctx, fmt.Sprintf("%sgrain%d", prefix, i), func(context.Context) (Grain, error) { return &C33Grain{}, nil }, WithLongLivedGrain()); err != nil {
+				out.Stalled = fmt.Sprintf("activate grain %d on the departing node: %v", i, err)
+				return out
+			}
+		}
+		out.count("grains_on_departing_node", int64(nGrains))
+	}
 	// what the departing node really hosts, as the framework itself classifies it
 	onD := map[string]*PID{}
 	for _, p := range dsys.localActors() {
@@ -757,7 +791,13 @@ func c33RunCase(cl *vfcCluster, mon *c33Mon, sc c33Script, seed int64, prefix st
 	out.count("non_relocatable_actors", int64(len(fixed)))
 
 	// ---- script wiring -------------------------------------------------------------------
-	cs := &c33Live{prefix: prefix, leader: L, departed: D}
+	cs := &c33Live{prefix: prefix, leader: L, departed: D, holdNode: -1, heldKeys: map[string]bool{}}
+	midTarget := -1
+	if sc.MidShare {
+		midTarget = survivors[1+rng.Intn(len(survivors)-1)]
+		cs.holdNode = midTarget
+		cs.holdAll = vfcNewGate()
+	}
 	if sc.Gate != "" {
 		g := &c33Gate{kind: sc.Gate, node: L, gate: vfcNewGate()}
 		switch sc.Gate {
@@ -884,6 +924,30 @@ func c33RunCase(cl *vfcCluster, mon *c33Mon, sc c33Script, seed int64, prefix st
 		// the derivation runs off the events loop; it ends by forgetting the departed node's port
 		if !verifrt.WaitUntil(c33BarrierWD, func() bool { _, ok := cl.Nodes[L].Sys.peerRemotingPort(addrD); return !ok }) {
 			out.Stalled = "crash recovery goroutine did not finish deriving"
+			return out
+		}
+	}
+	if sc.MidShare {
+		// the target stalls inside its actor batch (nothing of its share has been spawned yet) ...
+		verifrt.WaitUntil(c33GateWD, func() bool {
+			if cs.holdAll.Arrived() {
+				return true
+			}
+			_, busy := cl.Nodes[L].Sys.relocationJob(addrD)
+			return !busy
+		})
+		if cs.holdAll.Arrived() {
+			// ... dies (registry handle down, clustering off, listener closed; the connection carrying the
+			// batch stays up), then answers the batch with per-item failures and refuses the next one
+			cl.Crash(midTarget)
+			downed = midTarget
+			out.count("targets_crashed_inside_their_first_batch", 1)
+		} else {
+			out.notef("target %d never touched its share", midTarget)
+		}
+		cs.holdAll.Release()
+		if cs.holdAll.TimedOut() {
+			out.Stalled = "hold watchdog fired before the target was crashed"
 			return out
 		}
 	}
@@ -1230,6 +1294,20 @@ func c33RunCase(cl *vfcCluster, mon *c33Mon, sc c33Script, seed int64, prefix st
 	}
 	if sc.SurvivorDown {
 		nt = nt && downed >= 0
+	}
+	if sc.MidShare {
+		cs.heldMu.Lock()
+		reported := 0
+		for k := range cs.heldKeys {
+			if _, ok := listed[k]; ok {
+				reported++
+			}
+		}
+		touched := len(cs.heldKeys)
+		cs.heldMu.Unlock()
+		out.count("names_the_dying_target_touched", int64(touched))
+		out.count("names_the_dying_target_touched_and_listed_failed", int64(reported))
+		nt = nt && downed >= 0 && reported > 0
 	}
 	if sc.Ghosts || sc.Unplaceable || sc.LeaderFault != "" || sc.PeerFault {
 		nt = nt && failedListed > 0
